@@ -137,6 +137,7 @@ let err_name = function
   | EBadName -> "EBadName" | EBadMatch -> "EBadMatch" | EBadRegex -> "EBadRegex"
   | EBothQuantiles -> "EBothQuantiles" | EBothBuckets -> "EBothBuckets"
   | EHistWithSummaryOpts -> "EHistWithSummaryOpts" | ESummWithHistOpts -> "ESummWithHistOpts"
+  | EBadBuckets -> "EBadBuckets" | EBadSummary -> "EBadSummary"
 
 let rule_string (r : rule) (res : mresult) : string =
   let ot = match r.ru_observer with ObsHistogram -> "h" | ObsSummary -> "s" | ObsDefault -> "d" in
